@@ -1,6 +1,6 @@
 """Structured-control tables and bookkeeping of the special instrumentation
 modes (function entry/exit, block entry/exit/alt, semantic after)."""
-from vlib.facts import walk, pat_variants, pat_alternatives, peel, place_path, CheckError
+from vlib.facts import walk, pat_variants, pat_alternatives, peel, place_path, CheckError, lca, sp_before, path_to, conditional_ancestors
 from vlib.paths import paths, normal_paths
 from vlib.report import RuleResult
 
@@ -156,6 +156,30 @@ def block_tables(F):
     return r
 
 
+def _returns_true_from_every_working_arm(fn):
+    """planner shape: `let mut flag = false; match op { arms.. } flag`.  None if every arm that does any work (contains a
+    call) assigns `flag = true` under no further conditional; else the reason."""
+    body = fn["body"]
+    tail = peel(body.get("expr") or {})
+    if tail.get("k") == "Lit" and tail.get("lit") == "Bool(true)":
+        return None
+    if not (tail.get("k") == "Path" and tail.get("res", {}).get("r") == "local"):
+        return "its result is not a simple flag"
+    hid = tail["res"]["hid"]
+    ms = [m for m in walk(body) if m.get("k") == "Match" and "Operator" in (m.get("scrut_ty") or "")]
+    if not ms:
+        return "no match on the operator found"
+    for arm in ms[0]["arms"]:
+        works = any(x.get("k") in ("Call", "MethodCall") for x in walk(arm["body"]))
+        if not works:
+            continue
+        sets = [x for x in walk(arm["body"]) if x.get("k") == "Assign" and peel(x["lhs"]).get("res", {}).get("hid") == hid and peel(x["rhs"]).get("lit") == "Bool(true)"]
+        if not any(not conditional_ancestors(arm["body"], x) for x in sets):
+            vs = sorted({v for _, v in pat_variants(arm["pat"])[0] if v})
+            return "its arm for %s does work without unconditionally reporting true" % "/".join(vs[:4])
+    return None
+
+
 def resolve_clears(F):
     r = RuleResult("R-RESOLVE-CLEARS",
                    "every special list that resolve_special_instrumentation lowers is cleared after lowering with the matching mode constant (block_entry/block_exit/semantic_after via clear_instr_at(.., M) following the resolver call in the same guarded block; block_alt on a successful plan; function entry/exit lists cleared)")
@@ -175,39 +199,65 @@ def resolve_clears(F):
                             out.append(x["res"]["variant"])
         return out
 
-    # innermost Block / If-then that contains the resolver call
-    def visit(node):
-        if isinstance(node, list):
-            for v in node:
-                visit(v)
-            return
-        if not isinstance(node, dict):
-            return
-        if node.get("k") == "Block":
-            calls_here = []
-            for st in node["stmts"]:
-                e = st.get("e") or st.get("init")
-                if isinstance(e, dict) and e.get("k") == "Call" and e.get("callee") and e["callee"].split("::")[-1] in pair:
-                    calls_here.append(e["callee"].split("::")[-1])
-            for c in calls_here:
-                found.setdefault(c, []).append(clear_modes(node))
-        if node.get("k") == "If":
-            # `if cond && plan_resolution_block_alt(..) { clear; .. }`
-            for x in walk(node["cond"]):
-                if x.get("k") == "Call" and x.get("callee") and x["callee"].split("::")[-1] in pair:
-                    found.setdefault(x["callee"].split("::")[-1], []).append(clear_modes(node["then"]))
-        for v in node.values():
-            if isinstance(v, (dict, list)):
-                visit(v)
+    # Every resolver call P must be followed, on every path on which P ran, by the clear of its own mode:
+    #  (a) P and the clear C sit in one block, C after P, C under no conditional below their common ancestor; or
+    #  (b) `if .. P(..) { C }` — the clear depends on P's boolean result; then P must return true from every arm
+    #      that does any work (otherwise a lowered-but-not-cleared list is lowered again by the next encode).
+    def clear_nodes(node):
+        out = []
+        for n in walk(node):
+            if n.get("k") == "MethodCall" and n["method"] == "clear_instr_at":
+                for a in n["args"]:
+                    for x in walk(a):
+                        if x.get("k") == "Path" and x.get("res", {}).get("adt") == IM and x["res"].get("variant"):
+                            out.append((n, x["res"]["variant"]))
+        return out
 
-    visit(rs["body"])
+    all_clears = clear_nodes(rs["body"])
+    body = rs["body"]
+    for P in walk(body):
+        if not (P.get("k") == "Call" and P.get("callee") and P["callee"].split("::")[-1] in pair):
+            continue
+        res = P["callee"].split("::")[-1]
+        mode = pair[res]
+        verdict = None
+        modes_here = []
+        for C, m in all_clears:
+            l = lca(body, P, C)
+            if l is None or not sp_before(P, C):
+                continue
+            # only clears in the innermost guarded region of P count: the LCA must not be the function-level loop
+            pth = path_to(body, P)
+            depth_l = next(i for i, (n, _) in enumerate(pth) if n is l)
+            if len(pth) - depth_l > 8:
+                continue
+            conds = conditional_ancestors(body, C, below=l)
+            if l.get("k") == "If" and any(x is P for x in walk(l["cond"])) and any(x is C for x in walk(l["then"])):
+                inner = [c for c in conds if c is not l]
+                if not inner:
+                    modes_here.append(m)
+                    if m == mode:
+                        verdict = ("on-result", C)
+            elif not conds:
+                modes_here.append(m)
+                if m == mode:
+                    verdict = verdict or ("always", C)
+        found.setdefault(res, []).append(modes_here)
+        if verdict and verdict[0] == "on-result":
+            tgt = F.by_path.get(P["callee"])
+            why = _returns_true_from_every_working_arm(tgt[0]) if tgt else "planner body not found"
+            ok = why is None
+            r.ob(ok, {"resolver": res, "clear": "conditional on the planner's result", "planner_total": ok})
+            if not ok:
+                r.violate("%s | %s partial-result" % (rs["path"], res), F.loc(rs, P),
+                          "the %s list is cleared only when %s returns true, but %s: a body that was lowered (or flag-instrumented) without being reported stays in the list and is lowered again by the next encode" % (mode, res, why))
     for res, mode in pair.items():
         sites = found.get(res, [])
         ok = bool(sites) and all(mode in cl for cl in sites)
         r.ob(ok, {"resolver": res, "sites": len(sites), "cleared_with": sorted({m for cl in sites for m in cl})})
         if not ok:
             r.violate("%s | %s" % (rs["path"], res), F.loc(rs),
-                      "after %s the list for mode %s is not cleared at every call site (found clears: %s): the list would be lowered again / reported as unresolved" % (res, mode, sites))
+                      "after %s the list for mode %s is not cleared on every path at every call site (clears found per site: %s): the list would be lowered again / reported as unresolved" % (res, mode, sites))
         for cl in sites:
             extra = set(cl) - {mode}
             if extra:
